@@ -672,7 +672,14 @@ func (e *ruleEnv) instantiate(c map[string]interface{}) []*ruleText {
 			rt.ast.Items = append(rt.ast.Items, pit)
 		}
 		e.syscallShape(rt, str("sc"), "")
-		e.addKeys(rt, num("nkeys"), false)
+		if num("nkeys") == 3 {
+			// one key that holds a comma, written as a filter: the -k flag would read two keys in it
+			k := strings.ReplaceAll(e.word(1+r.Intn(5), false), ",", "_") + "," + strings.ReplaceAll(e.word(1+r.Intn(5), false), ",", "_")
+			rt.args = append(rt.args, "-F", "key="+k)
+			rt.ast.Items = append(rt.ast.Items, strItem("key", "=", k))
+		} else {
+			e.addKeys(rt, num("nkeys"), false)
+		}
 		return []*ruleText{rt}
 	case "nfields":
 		rt := &ruleText{ast: newAst(), c07: true, cls: "nfields"}
